@@ -16,6 +16,7 @@ import (
 	"context"
 	"fmt"
 	"sync"
+	"sync/atomic"
 	"time"
 
 	"github.com/gogo/protobuf/proto"
@@ -295,15 +296,23 @@ func (anyStore) GetStore(id uint64) *core.StoreInfo {
 	return core.NewStoreInfo(&metapb.Store{Id: id, Address: fmt.Sprintf("mock://%d", id)})
 }
 
-type recStream struct{ r *Recorder }
+// recStream records what PD pushes into it; once broken every push fails (a dead gRPC stream).
+type recStream struct {
+	r      *Recorder
+	broken *int32
+}
 
 func (s recStream) Send(m *pdpb.RegionHeartbeatResponse) error {
+	if atomic.LoadInt32(s.broken) != 0 {
+		return fmt.Errorf("stream is broken")
+	}
 	s.r.ch <- m
 	return nil
 }
 
 const sentinelStore = 1<<40 + 7
 const sentinelRegion = 1<<40 + 9
+const probeRegion = 1<<40 + 11
 
 // Recorder owns a running HeartbeatStreams; every store id has a recording stream bound.
 type Recorder struct {
@@ -311,17 +320,19 @@ type Recorder struct {
 	ch       chan *pdpb.RegionHeartbeatResponse
 	sentinel *core.RegionInfo
 	mu       sync.Mutex
+	streams  map[uint64]recStream
 }
 
 // NewRecorder binds recording streams for the given store ids (and an internal sentinel store).
 func NewRecorder(ctx context.Context, clusterID uint64, stores []uint64) (*Recorder, error) {
-	r := &Recorder{ch: make(chan *pdpb.RegionHeartbeatResponse, 4096)}
+	r := &Recorder{ch: make(chan *pdpb.RegionHeartbeatResponse, 4096), streams: map[uint64]recStream{}}
 	r.HB = hbstream.NewTestHeartbeatStreams(ctx, clusterID, anyStore{core.NewBasicCluster()}, true)
 	lp := &metapb.Peer{Id: sentinelStore, StoreId: sentinelStore}
 	r.sentinel = core.NewRegionInfo(&metapb.Region{Id: sentinelRegion, Peers: []*metapb.Peer{lp}, RegionEpoch: &metapb.RegionEpoch{}}, lp)
 	all := append([]uint64{sentinelStore}, stores...)
 	for _, st := range all {
-		r.HB.BindStream(st, recStream{r})
+		r.streams[st] = recStream{r, new(int32)}
+		r.HB.BindStream(st, r.streams[st])
 	}
 	// BindStream is asynchronous: confirm every binding with a probe that must come back.
 	for _, st := range all {
@@ -369,5 +380,54 @@ func (r *Recorder) Collect() []*pdpb.RegionHeartbeatResponse {
 		case <-time.After(5 * time.Second):
 			panic("tikvsim.Recorder: sentinel lost")
 		}
+	}
+}
+
+// Break makes every further push into the store's current stream fail (PD forgets the stream at the first failure).
+func (r *Recorder) Break(store uint64) {
+	if s, ok := r.streams[store]; ok {
+		atomic.StoreInt32(s.broken, 1)
+	}
+}
+
+// Rebind binds a fresh recording stream for the store, waits until PD uses it and returns everything the new stream
+// received meanwhile that the caller did not ask for (a correct HeartbeatStreams sends nothing on its own).
+func (r *Recorder) Rebind(store uint64) []*pdpb.RegionHeartbeatResponse {
+	r.mu.Lock()
+	defer r.mu.Unlock()
+	r.streams[store] = recStream{r, new(int32)}
+	r.HB.BindStream(store, r.streams[store])
+	p := &metapb.Peer{Id: store, StoreId: store}
+	probe := core.NewRegionInfo(&metapb.Region{Id: probeRegion, Peers: []*metapb.Peer{p}, RegionEpoch: &metapb.RegionEpoch{}}, p)
+	var out []*pdpb.RegionHeartbeatResponse
+	for try := 0; try < 500; try++ {
+		r.HB.SendMsg(probe, &pdpb.RegionHeartbeatResponse{})
+		deadline := time.After(10 * time.Millisecond)
+	wait:
+		for {
+			select {
+			case m := <-r.ch:
+				if m.GetRegionId() == probeRegion {
+					return out
+				}
+				out = append(out, m)
+			case <-deadline:
+				break wait
+			}
+		}
+	}
+	panic("tikvsim.Recorder: re-bound stream never used")
+}
+
+// Reset gives every store whose stream was broken a working one again (between cases); what comes out is discarded.
+func (r *Recorder) Reset() {
+	var broken []uint64
+	for st, s := range r.streams {
+		if atomic.LoadInt32(s.broken) != 0 {
+			broken = append(broken, st)
+		}
+	}
+	for _, st := range broken {
+		r.Rebind(st)
 	}
 }
